@@ -52,7 +52,7 @@ def run(env, tier, seed, broken=None):
         for d in (-1, 0, 1):
             x = float('1e%d' % p)
             doubles.append(math.nextafter(x, math.inf) if d > 0 else math.nextafter(x, -math.inf) if d < 0 else x)
-    for _ in range(3000 if tier == 'quick' else 300000):
+    for _ in range(3000 if tier == 'quick' else 40000):
         b = rng.getrandbits(64)
         x = lang.bits_f64(b)
         doubles.append(x)
